@@ -814,6 +814,31 @@ func (g *vgen) stmts(fn string, ints, loops []string, strs []string, d, n int, i
 			a := g.stmts(fn, ints, loops, strs, d, 1, inLoop)
 			b := g.stmts(fn, ints, loops, strs, d, 1, inLoop)
 			out = append(out, "if "+g.cond(all)+" {"+strings.Join(a, "; ")+"} else {"+strings.Join(b, "; ")+"}")
+		case k < 59 && len(all) > 0:
+			// a bare register (parameter / loop variable) as KEY of a large (6 entries) and a small (2 entries) map:
+			// lookup, store, delete, key of a map literal, membership through keys; and as array element in comparisons
+			v := all[g.r.Intn(len(all))]
+			big, small := fn+"mb", fn+"ms"
+			switch g.r.Intn(9) {
+			case 0:
+				out = append(out, fmt.Sprintf("println(%s[%s], %s[%s])", big, v, small, v))
+			case 1:
+				out = append(out, fmt.Sprintf("%s[%s]=%s; println(%s)", big, v, g.intExpr(all, 1), big))
+			case 2:
+				out = append(out, fmt.Sprintf("%s[%s]=%s; println(%s)", small, v, g.intExpr(all, 1), small))
+			case 3:
+				out = append(out, fmt.Sprintf("println(del(%s[%s]), %s)", big, v, big))
+			case 4:
+				out = append(out, fmt.Sprintf("println(del(%s[%s]), %s)", small, v, small))
+			case 5:
+				out = append(out, fmt.Sprintf(`println({%s:1, "q":%s}, {%s:1,10:2,11:3,12:4,13:5,14:6}[%s])`, v, v, v, v))
+			case 6:
+				out = append(out, fmt.Sprintf("println([%s] == [3], [%s] < [4], [1,%s] == [1,2], %s == 2)", v, v, v, v))
+			case 7:
+				out = append(out, fmt.Sprintf("println(%s[%s] == nil, %s[%s%%3] == nil)", big, v, big, v))
+			default:
+				out = append(out, fmt.Sprintf("println(%s[%s][0:1])", big, v))
+			}
 		case k < 62 && len(all) > 0:
 			out = append(out, "println("+g.leftThenAssign(all[g.r.Intn(len(all))], all)+")")
 		case k < 70:
@@ -876,7 +901,7 @@ func (g *vgen) function() string {
 		}
 	}
 	loc := name + "t"
-	body := []string{loc + "=0"}
+	body := []string{loc + "=0", name + `mb = {0:"a",1:"b",2:"c",3:"d",4:"e",5:"f"}`, name + `ms = {1:"x",2:"y"}`}
 	ints2 := append(append([]string{}, ints...), loc)
 	body = append(body, g.stmts(name, ints2, nil, strs, 0, 2+g.r.Intn(4), false)...)
 	body = append(body, g.intExpr(ints2, 2))
@@ -927,7 +952,11 @@ func (g *vgen) input() string {
 	}
 	n := 1 + g.r.Intn(3)
 	for i := 0; i < n; i++ {
-		switch g.r.Intn(5) {
+		switch g.r.Intn(6) {
+		case 5:
+			parts = append(parts, `gmb = {1:"a",2:"b",3:"c",4:"d",5:"e"}; gms = {1:"a",2:"b"}`,
+				fmt.Sprintf("for tv0=%d:%d {print(gmb[tv0], gms[tv0], [tv0]==[2])}", g.r.Intn(3), 4+g.r.Intn(4)),
+				fmt.Sprintf("for tv0=1:%d {del(gmb[tv0]); gms[tv0]=tv0*2}; println(gmb, gms)", 2+g.r.Intn(3)))
 		case 4:
 			parts = append(parts, fmt.Sprintf("for tv0=%d {println(%s)}", 1+g.r.Intn(4), g.leftThenAssign("tv0", []string{"tv0"})))
 		case 0:
@@ -981,6 +1010,8 @@ var fixedCorpus = [][]string{
 	{`func mk(a,b){()=>a+b};mk(1,2)()`},
 	{`func n(){5};func f(n){n()};f(1)`}, {`m={"n":4};func f(n){m.n+n};f(1)`}, {`m={"n":4};func f(n){del(m.n);m};f(1)`},
 	{`func f(n){{n:print("a"), n:print("b")}};f(1)`}, {`for n=0:2{println({n:1, n:2})}`},
+	{`m={1:"a",2:"b",3:"c",4:"d",5:"e"}; for i=1:6 {print(m[i])}`}, {`m={1:"a",2:"b",3:"c",4:"d",5:"e"}; f=func(k){m[k]}; f(3)`},
+	{`m={1:"a",2:"b",3:"c",4:"d",5:"e"}; for i=1:3 {del(m[i])}; m`}, {`func f(k){[[k] == [3], [k] < [4], {k:1}]}; f(3)`},
 	{`func f(n){ n + (n := 5) }; f(1)`}, {`for i = 3 { println(i + (i := 10)) }`}, {`func h(a,b,c){ r = a - (b + (a := c)); [r,a] }; h(10,2,3)`},
 	{`m = macro(){ id = func(k){k}; quote(unquote(id(3))) }; m()`}, {`m2 = macro(z){ f = func(k){k*2+1}; quote(unquote(z) + unquote(f(4))) }; println(m2(10))`},
 	{`func f(n) { n + idl(n = 10) }; f(1)`}, {`func f(n){ n * dec1(n = n - 1) }; f(5)`}, {`for i = 3 { println(i * id1(i = i + 10)) }`},
